@@ -33,7 +33,7 @@ def _sub_terms(o):
     """minuend and list of subtrahends of a chain of subtractions"""
     o = _core_bin(o)
     subs = []
-    while o.k == "bin" and o.a in ("Sub", "SubWithOverflow"):
+    while (o.k == "bin" and o.a in ("Sub", "SubWithOverflow")) or (o.k == "call" and o.a["name"] in ("saturating_sub", "checked_sub") and len(o.kids) == 2):
         subs.append(o.kids[1])
         o = _core_bin(o.kids[0])
     return o, subs
